@@ -747,7 +747,13 @@ def symval_method(ex, recv, name, args, kwargs, node):
         return SymVal('str', z3.Concat(s, pad))
     if name == 'isdigit':
         return SymVal('bool', z3.InRe(s, z3.Plus(z3.Range('0', '9'))))
-    if name == 'split' or name == 'join' or name == 'format':
+    if name == 'split':
+        # assumed contract of str.split: a non-empty list of strings (separator / maxsplit only bound the length from above)
+        seq = SymSeq(ex.fresh_name('split'), lambda e, l: SymVal('str', z3.String(e.fresh_name(l))), prov='fresh')
+        seq.nonempty = True
+        ex.assume(seq.len > 0)
+        return seq
+    if name == 'join' or name == 'format':
         raise Unsupported(f'str.{name} on symbolic string')
     raise Unsupported(f'str.{name} on symbolic string')
 
